@@ -104,6 +104,8 @@ Definition mon_step (P : params) (m : mst) (st : rstep) : option nat * mst :=
   (* deadlines established in this step *)
   let dl1 := fold_left (fun acc c => match c with
                                      | CPrune p t bo =>
+                                         (* the PRUNE that answers a direct peer's GRAFT starts no backoff *)
+                                         if memb p (m_direct m) then acc else
                                          let iv := match bo with
                                                    | Some secs => secs * 1000000000
                                                    | None => match st_op st with OLeave _ => pUnsubBackoff P | _ => pPruneBackoff P end
@@ -160,7 +162,21 @@ Definition mon_step (P : params) (m : mst) (st : rstep) : option nat * mst :=
   let both := existsb (fun c => match c with
                                 | CGraft p t => existsb (fun d => match d with CPrune q u _ => Nat.eqb p q && Nat.eqb t u | _ => false end) (st_ctl st)
                                 | _ => false end) (st_ctl st) in
-  (if early then Some 81%nat else if both then Some 84%nat else if bad_prune then Some 83%nat else None,
+  (* every GRAFT received inside a backoff the node knows to be in force for that peer and topic costs the peer at least one
+     behaviour penalty (two within the graft-flood threshold of the PRUNE), also when several of them come in one RPC *)
+  let unpaid := match st_op st with
+                | ORecvGraft p ts =>
+                    Nat.ltb (st_pen st)
+                            (fold_left (fun acc t =>
+                               if memb t (m_joined m) && negb (memb p (m_direct m))
+                               then match dl_get t p (m_deadline m) with
+                                    | Some d => if (now' <? d)%Z
+                                                then (acc + (if (now' <? d + pGraftFlood P - pPruneBackoff P)%Z then 2 else 1))%nat   (* twice inside the graft-flood window *)
+                                                else acc
+                                    | None => acc end
+                               else acc) ts 0%nat)
+                | _ => false end in
+  (if early then Some 81%nat else if both then Some 84%nat else if bad_prune then Some 83%nat else if unpaid then Some 85%nat else None,
    {| m_now := now'; m_deadline := dl2; m_joined := joined'; m_conn := conn'; m_px := px'; m_direct := direct' |}).
 
 (* C07 on the snapshot: a mesh exists exactly for joined topics, fanout only for topics not joined;
